@@ -40,9 +40,11 @@ PROPS = {
         harnesses=[
             dict(run=B + "VerifC01Race", quick=dict(ops=1, keys=1, val9=0, preempt=1), thorough=dict(ops=1, keys=1, val9=0, preempt=2),
                  covers=["both-succeed", "one-loses", "done"]),
+            dict(run=B + "VerifC01Race", name="C01_scenarios", quick=dict(scenario=1, keys=1, val9=0, preempt=1), thorough=dict(scenario=1, keys=1, val9=0, preempt=2),
+                 covers=["both-succeed", "one-loses", "done"]),
             dict(run=B + "VerifC01Seq", quick=dict(ops=3, keys=1, val9=0), thorough=dict(ops=3, keys=2, val9=0), covers=["create-ok", "create-refused", "update-ok", "update-refused", "delete-ok", "delete-refused", "delete-absent", "done"]),
         ],
-        bounds=dict(quick="2 concurrent clients on 1 key after a 1-write history (initial states: never existed, live, deleted), every interleaving of their store operations and revision dealing with at most 1 preemption; sequential histories of 3 writes; expected revisions unconstrained 64-bit; both conflict-reporting styles of the engine contract",
+        bounds=dict(quick="2 concurrent clients on 1 key after a 1-write history (initial states: never existed, live, deleted), every interleaving of their store operations and revision dealing with at most 1 preemption; sequential histories of 3 writes; expected revisions unconstrained 64-bit; both conflict-reporting styles of the engine contract; the same two clients after fixed key histories (deleted with the mark present, two versions, deleted and re-created)",
                     thorough="2 clients after 2-write histories with at most 2 preemptions; sequential histories of 3 writes over 2 keys"),
         outside="engines' own transaction isolation (assumed by the contract store; adapters in C11); unknown-outcome faults (C09); more than 2 concurrent clients; deleted-and-compacted initial state is covered by C07's after-compaction write",
         assumptions=["an unguarded delete (expected revision 0) is executed as 'delete the version I read'; its failure is accepted when a concurrent write to the key succeeded while it was in flight"],
